@@ -17,6 +17,8 @@ RULE = ("hosts: figure 5.5, generated stopping/exact games, a 3-state game (thor
 ASSUMPTIONS = [
     "universe: rewards/players/transition_list are lists of None/bool/int/float/str/tuple/list values, final_states "
     "a list of ints (bool finals act as 0/1)",
+    "run_games is the repaired one (fix: commit bb189d4: a TypeError of count_transitions is caught, n_transitions = 0); "
+    "a run_games crash on a malformed game is a violation",
     "descriptions with a non-numeric or NaN reward are outside the documented rules: the code raises TypeError "
     "(non-number) or depends on the position of the NaN; they are compared with the model but not judged",
     "messages of min([]) / max([]) are CPython 3.12's",
@@ -25,7 +27,6 @@ ASSUMPTIONS = [
 HDR = ("From Coq Require Import String List ZArith Bool.\n"
        "From CR Require Import Model.Outcome Model.PyVal Model.Validate.\n"
        "Import ListNotations.\nLocal Open Scope string_scope.\nLocal Open Scope Z_scope.\n")
-NO_SOLUTION = "The game has no solution. The initial state has a reach probability of 0."
 PREFIX = "Error while solving the game: "
 
 
@@ -236,7 +237,7 @@ def hosts(ctx):
     """well-formed, solvable hosts (solvability is established by running the implementation)"""
     rng = ctx.rng
     cand = [("fig55", copy.deepcopy(gen_games.FIG55)), ("three", three_state())]
-    k = 3 if ctx.quick else 3
+    k = 3
     gs = gen_games.mixed_games(rng, 12, nmin=3, nmax=6, styles=("stopping", "exact"))
     cand += [("gen%d" % i, g) for i, (g, _) in enumerate(gs)]
     extra = []
@@ -289,7 +290,7 @@ def judge(ctx, c, what, r):
 def run(ctx):
     hs, cases = build_cases(ctx)
     ctx.notes.append("hosts: %s" % ", ".join("%s(n=%d)" % (nm, len(h["players"])) for nm, h in hs))
-    jobs, where = [], []
+    jobs = []
     for c in cases:
         e = enc(c["d"])
         c["wf"], c["out"] = wfdoc(c["d"]), outside_universe(c["d"])
